@@ -229,6 +229,25 @@ class SymListT(Spec):
         return V.SList([V.SeqPart(name, n)])
 
 
+class SymObjListT(Spec):
+    """list of symbolic length of objects of a class with the given (scalar) fields"""
+
+    def __init__(self, cls_path, **fields):
+        self.cls_path = cls_path
+        self.fields = fields
+        self.label = f"list[n] of {cls_path.split(':')[-1]}"
+
+    def make(self, I, name):
+        V, z3 = _v(), _z3()
+        n = z3.Int(name + '.len')
+        I.st.assume(n >= 0)
+        funcs = {}
+        for f, spec in self.fields.items():
+            sort = {'str': z3.StringSort(), 'int': z3.IntSort(), 'bool': z3.BoolSort()}[spec.label.split('(')[0]]
+            funcs[f] = (z3.Function(f"{name}.{f}", z3.IntSort(), sort), spec.label.split('(')[0])
+        return V.SymList(name, n, ObjT(self.cls_path).resolve(), funcs)
+
+
 class LockT(Spec):
     label = 'lock'
 
@@ -275,6 +294,7 @@ class T:
     one_of = OneOf
     custom = CustomT
     lock = LockT()
+    symobjlist = SymObjListT
     symcoll = SymCollT
     symlist = SymListT()
 
@@ -293,7 +313,7 @@ class Contract:
                  unwind=None, invariants=None, modifies=None, assumes=(), level='top',
                  bound_args=None, kind='function', spec_globals=None, note='', recipes=None,
                  max_paths=5000, result_spec=None, call_raises=None, name=None,
-                 body_slice=None, watch_attrs=(), event_clauses=None, havoc=None):
+                 body_slice=None, watch_attrs=(), event_clauses=None, havoc=None, symlist_models=None, eager_ensures=False):
         self.module = module
         self.qualname = qualname
         self.name = name or qualname     # identity of the contract (several contracts may describe one function)
@@ -317,6 +337,8 @@ class Contract:
             self.raises.append(Clause(k, when, lvl, exc=exc if isinstance(exc, tuple) else (exc,), when=when))
         self.unwind = unwind or {}
         self.invariants = invariants or {}
+        self.eager_ensures = eager_ensures   # at call sites the post-condition also feeds the feasibility solver
+        self.symlist_models = symlist_models or {}     # spec function name -> fold model over lists of symbolic length
         self.modifies = modifies           # None: frame not checked; list of param names that may change
         self.assumes = list(assumes)
         self.level = level
